@@ -462,7 +462,8 @@ theorem stopCheck_nocaps (a : Args) (st : St σ) (iters cnt : Nat) (hcont : a.co
 /-- **Progress of the main loop.**  From a state of an exact run in which a normal packet is
     still queued, with fuel and caps that leave room for the weight of the queue, the loop stops
     because all normal packets were processed; the number of iterations is the weight it
-    consumed. -/
+    consumed, and at least one event (the NormalRecv of the TunnelRecv served last) is
+    still queued. -/
 theorem loop_progress {delay lim : Nat} {L : Bool → List Int} {B : Int}
     (hstat : ∀ c t, t ∈ L c →
       (L c).countP (fun x => decide (x ≤ t) && inWin Gen.SIM_BOTTLENECK_WINDOW_NS t x) ≤ lim)
@@ -472,7 +473,7 @@ theorem loop_progress {delay lim : Nat} {L : Bool → List Int} {B : Int}
       (a.maxSimIterations = 0 ∨ iters + wgt st.sq ≤ a.maxSimIterations) →
       (a.maxTraceLength = 0 ∨ cnt + wgt st.sq ≤ a.maxTraceLength) →
       (loop ρ a fuel st iters cnt).stop = .noNormal ∧
-      ∃ stf, (loop ρ a fuel st iters cnt).final = some stf ∧ act stf.sq = 0 ∧
+      ∃ stf, (loop ρ a fuel st iters cnt).final = some stf ∧ act stf.sq = 0 ∧ 0 < wgt stf.sq ∧
         (loop ρ a fuel st iters cnt).stream.length + wgt stf.sq = wgt st.sq := by
   intro fuel
   induction fuel with
@@ -499,7 +500,7 @@ theorem loop_progress {delay lim : Nat} {L : Bool → List Int} {B : Int}
     cases hnn : st'.sq.noNormalPackets with
     | true =>
       rw [if_pos rfl]
-      refine ⟨rfl, st', rfl, hiff.1 hnn, ?_⟩
+      refine ⟨rfl, st', rfl, hiff.1 hnn, by omega, ?_⟩
       show [r].length + wgt st'.sq = wgt st.sq
       simp only [List.length_cons, List.length_nil]; omega
     | false =>
@@ -508,10 +509,10 @@ theorem loop_progress {delay lim : Nat} {L : Bool → List Int} {B : Int}
         rcases Nat.eq_zero_or_pos (act st'.sq) with h0 | h0
         · rw [hiff.2 h0] at hnn; cases hnn
         · exact h0
-      obtain ⟨i1, stf, i2, i3, i4⟩ := ih st' (iters + 1) (bump a r cnt) hp' hact' (by omega)
+      obtain ⟨i1, stf, i2, i3, i5, i4⟩ := ih st' (iters + 1) (bump a r cnt) hp' hact' (by omega)
         (by rcases hit with h | h; exact Or.inl h; right; omega)
         (by rcases hlen with h | h; exact Or.inl h; right; omega)
-      refine ⟨i1, stf, i2, i3, ?_⟩
+      refine ⟨i1, stf, i2, i3, i5, ?_⟩
       show (r :: (loop ρ a n st' (iters + 1) (bump a r cnt)).stream).length + wgt stf.sq = wgt st.sq
       simp only [List.length_cons]; omega
 
@@ -715,7 +716,7 @@ theorem sim_progress (budget : Nat) (trace : List TraceLine) (delay lim : Nat) (
     ∃ stf, (simAdvanced ρ budget [] [] (parseTrace trace delay) a orc).final = some stf ∧
       stf.sq.noNormalPackets = true ∧
       (simAdvanced ρ budget [] [] (parseTrace trace delay) a orc).stream.length + tcount isNR stf.sq = 4 * trace.length ∧
-      tcount isNR stf.sq ≤ trace.length := by
+      1 ≤ tcount isNR stf.sq ∧ tcount isNR stf.sq ≤ trace.length := by
   have hstat : ∀ c t, t ∈ Lof trace delay c →
       (Lof trace delay c).countP (fun x => decide (x ≤ t) && inWin Gen.SIM_BOTTLENECK_WINDOW_NS t x) ≤ lim := by
     intro c
@@ -752,7 +753,7 @@ theorem sim_progress (budget : Nat) (trace : List TraceLine) (delay lim : Nat) (
     split
     · rcases hit with h | h <;> omega
     · omega
-  obtain ⟨hstop, stf, hfin, hact, hcnt⟩ := loop_progress ρ hstat a hcont (loopFuel a budget) st 0 0 hp ha0 hfuel
+  obtain ⟨hstop, stf, hfin, hact, hwpos, hcnt⟩ := loop_progress ρ hstat a hcont (loopFuel a budget) st 0 0 hp ha0 hfuel
     (by rw [hw0]; rcases hit with h | h; exact Or.inl h; right; omega)
     (by rw [hw0]; rcases hlen with h | h; exact Or.inl h; right; omega)
   -- the events still queued at the end are at most as many as the lines
@@ -770,7 +771,7 @@ theorem sim_progress (budget : Nat) (trace : List TraceLine) (delay lim : Nat) (
   unfold simAdvanced
   simp only [hi]
   rw [finish_stop, finish_stream, finish_final_noNormal a _ hstop]
-  refine ⟨hstop, stf, hfin, (noNormal_iff_act hxf.wf hxf.nm.pk).2 hact, ?_, hnr⟩
+  refine ⟨hstop, stf, hfin, (noNormal_iff_act hxf.wf hxf.nm.pk).2 hact, ?_, by omega, hnr⟩
   rw [← hwf, hcnt, hw0]
 
 end
